@@ -94,6 +94,7 @@ pub fn arb_c05_srv() -> BoxedStrategy<C05Srv> {
                                 units: units.clone(),
                                 auth: None,
                                 decode,
+                                aliases: vec![],
                             },
                             frames: frames.clone(),
                             select_seed,
@@ -776,6 +777,7 @@ pub fn arb_c06_srv() -> BoxedStrategy<C06Srv> {
                         units: vec![(unit, st.clone())],
                         auth: None,
                         decode,
+                        aliases: vec![],
                     },
                     frame: Frame {
                         tx: 0,
@@ -1070,6 +1072,7 @@ pub fn arb_c06_chunk() -> BoxedStrategy<C06Chunk> {
                             units: units.clone(),
                             auth: None,
                             decode,
+                            aliases: vec![],
                         },
                         frames: frames.clone(),
                         select_seed,
